@@ -72,6 +72,19 @@ def check_standard_result(fs, model, mon):
         P("dictionary-logL_birth-differs", "")
     if d["total_likelihood_evaluations"] != model.likelihood_evaluations:
         P("dictionary-evaluation-count-differs", (d["total_likelihood_evaluations"], model.likelihood_evaluations))
+    # --- accessor purity: reading the public summary properties must not change what is returned afterwards
+    w_first = np.array(ns.state.log_posterior_weights, copy=True)
+    z_first = (float(ns.log_evidence), float(ns.state.log_evidence_error))
+    try:
+        _ = (ns.posterior_effective_sample_size, ns.information, ns.log_evidence_error, ns.birth_log_likelihoods, ns.state.effective_n_posterior_samples)
+    except Exception as e:
+        P("summary-property-raises", f"{type(e).__name__}: {e}"[:150])
+    mon.bump("C05.accessor_purity_checked")
+    d2 = ns.get_result_dictionary()
+    if not (np.array_equal(np.asarray(ns.state.log_posterior_weights), w_first, equal_nan=True) and np.array_equal(np.asarray(d2["log_posterior_weights"]), w_first, equal_nan=True)):
+        P("weights-change-after-reading-summary-properties", float(np.nanmax(np.abs(np.asarray(ns.state.log_posterior_weights) - w_first))))
+    if (float(ns.log_evidence), float(ns.state.log_evidence_error)) != z_first or d2["log_evidence"] != d["log_evidence"]:
+        P("evidence-changes-after-reading-summary-properties", "")
     ps = getattr(fs, "posterior_samples", None)
     if ps is not None and len(ps):
         if not _rows_subset(ps, a, list(model.names) + ["logL"]):
@@ -136,4 +149,16 @@ def check_ins_result(fs, model, mon):
         P("dictionary-samples-differ", "")
     if "log_posterior_weights" in d and not np.array_equal(np.asarray(d["log_posterior_weights"]), ns.log_posterior_weights, equal_nan=True):
         P("dictionary-weights-differ", "")
+    # --- accessor purity
+    w_first = np.array(ns.log_posterior_weights, copy=True)
+    z_first = (float(ns.log_evidence), float(ns.log_evidence_error))
+    try:
+        _ = (ns.posterior_effective_sample_size, ns.samples_entropy, ns.state.effective_n_posterior_samples, ns.final_log_evidence, ns.final_log_evidence_error)
+    except Exception as e:
+        P("summary-property-raises", f"{type(e).__name__}: {e}"[:150])
+    mon.bump("C05.accessor_purity_checked")
+    if not np.array_equal(np.asarray(ns.log_posterior_weights), w_first, equal_nan=True):
+        P("weights-change-after-reading-summary-properties", "")
+    if (float(ns.log_evidence), float(ns.log_evidence_error)) != z_first:
+        P("evidence-changes-after-reading-summary-properties", "")
     return out
